@@ -395,12 +395,19 @@ func (ab *rulesPair) equalizeGroups(ra, rb *nsxRule) []change {
 }
 
 func sortRules(l []*nsxRule, m map[string]*nsxGroup) {
+	// Group may be empty on device after an interrupted approve.
+	first := func(g *nsxGroup) string {
+		if l := g.Expression[0].IPAddresses; len(l) > 0 {
+			return l[0]
+		}
+		return ""
+	}
 	elementCmp := func(ei, ej string) int {
 		gi := getGroup(ei, m)
 		gj := getGroup(ej, m)
 		if gi != nil {
 			if gj != nil {
-				return cmp.Compare(gi.Expression[0].IPAddresses[0], gj.Expression[0].IPAddresses[0])
+				return cmp.Compare(first(gi), first(gj))
 			}
 			return -1
 		}
